@@ -59,6 +59,33 @@ Proof.
   destruct (mem_text (snd x) encs); apply IH.
 Qed.
 
+(* ------------------------------------------------------------ __init__ *)
+Theorem gen_init_is_model encmap caller root_dir package_name use_subpath index reload encs :
+  gen_init encmap caller root_dir package_name use_subpath index reload encs =
+  init_model encmap caller root_dir package_name use_subpath index reload encs.
+Proof.
+  unfold gen_init, init_model, init_root. rewrite ?gen_compile_content_encodings_is_model.
+  destruct package_name;
+    repeat match goal with
+           | |- context [match ?x with None => _ | Some _ => _ end] => destruct x
+           | |- context [if ?b then _ else _] => destruct b
+           end; reflexivity.
+Qed.
+
+(* what the regenerated __init__ binds: (package_name, docroot) are asset.resolve_asset_spec of what was written (the
+   pair [configure] starts from), norm_docroot is normpath(docroot), index / reload / use_subpath are the arguments,
+   content_encodings the compiled map, the filemap a fresh empty dict *)
+Theorem gen_init_spec encmap caller root_dir package_name use_subpath index reload encs :
+  let v := gen_init encmap caller root_dir package_name use_subpath index reload encs in
+  (v_package_name v, v_docroot v) = init_root root_dir package_name caller /\
+  v_norm_docroot v = normpath (v_docroot v) /\ v_use_subpath v = use_subpath /\ v_index v = index /\
+  v_reload v = reload /\ v_encodings v = compile_encodings encs encmap /\ v_filemap v = [].
+Proof.
+  cbv zeta. rewrite gen_init_is_model. unfold init_model. cbn [v_package_name v_docroot v_norm_docroot v_use_subpath
+    v_index v_reload v_encodings v_filemap].
+  destruct (init_root root_dir package_name caller). repeat split.
+Qed.
+
 Ltac cases :=
   repeat (monad;
           match goal with
@@ -66,6 +93,45 @@ Ltac cases :=
           | |- context [match ?x with None => _ | Some _ => _ end] => destruct x eqn:?
           | |- context [match ?x with Datatypes.inl _ => _ | Datatypes.inr _ => _ end] => destruct x eqn:?
           end).
+
+(* ------------------------------------------------------------ traversal.split_path_info *)
+Lemma rev_removelast {A} (l : list A) : rev (removelast l) = tl (rev l).
+Proof.
+  destruct l as [|a l] using rev_ind; [reflexivity|].
+  rewrite removelast_last, rev_unit. reflexivity.
+Qed.
+
+(* the regenerated loop keeps the clean list in order and appends; the reference model keeps it reversed *)
+Theorem gen_split_path_info_is_model p : gen_split_path_info p = split_path_info_f p.
+Proof.
+  unfold gen_split_path_info, split_path_info_f.
+  match goal with
+  | |- ?F ?L (@nil text) = _ =>
+      enough (H : forall l acc, F l acc = rev (fold_left spi_step_f l (rev acc))) by exact (H L [])
+  end.
+  induction l as [|x l IH]; intros acc; [cbn [fold_left]; symmetry; apply rev_involutive|].
+  cbn [fold_left]. destruct x as [|ch x'].
+  - cbn [nonempty_text spi_step_f text_eqb negb]. apply IH.
+  - cbn [nonempty_text]. unfold spi_step_f at 2. unfold spi_skip, spi_pop.
+    repeat match goal with
+           | |- context [if text_eqb ?a ?b then _ else _] => let E := fresh "E" in destruct (text_eqb a b) eqn:E
+           end;
+    try (exfalso; repeat match goal with H : text_eqb _ _ = true |- _ => apply text_eqb_eq in H end; congruence);
+    cbn [negb];
+    first [ apply IH
+          | rewrite IH, rev_unit; reflexivity
+          | destruct acc as [|a acc _] using rev_ind;
+            [ apply IH
+            | replace (nonempty_list (acc ++ [a])) with true by (destruct acc; reflexivity);
+              cbn [negb]; rewrite IH, rev_removelast; reflexivity ] ].
+Qed.
+
+Lemma gen_split_path_info_both p : gen_split_path_info p = split_path_info_f p /\ gen_split_path_info p = split_path_info p.
+Proof. split; [apply gen_split_path_info_is_model|rewrite gen_split_path_info_is_model; reflexivity]. Qed.
+
+(* the splitter the whole development reasons about (Lib/PathNorm.split_path_info) is the regenerated one *)
+Corollary gen_split_path_info_is_lib p : gen_split_path_info p = split_path_info p.
+Proof. rewrite gen_split_path_info_is_model. apply spi_f_is_spi. Qed.
 
 (* ------------------------------------------------------------ _contains_invalid_element_char, _secure_path *)
 Theorem gen_contains_invalid_is_model item : gen_contains_invalid item = contains_invalid_char item.
